@@ -495,7 +495,7 @@ def c09(run, args):
     else:
         run.model_check("MCMailstore", MC_CFG % dict(caps="0, 2", limits="0, 3", maxadds=3), label="MCMailstore(caps x limits)")
         # the implementation-shaped model of the memory store: every interleaving of three clients refines the concurrent contract
-        for cap, limit in ((0, 4), (2, 4), (0, 0)) if quick else ((0, 4), (2, 4), (0, 0), (1, 3), (2, 5), (3, 0)):
+        for cap, limit in ((0, 4), (2, 4), (0, 0)) if quick else ((0, 4), (2, 4), (0, 0), (2, 5), (3, 0), (0, 6), (3, 5)):   # the model starts with two messages per mailbox (4 units): cap >= 2, limit >= 4
             run.model_check("MCMemStoreImpl", IMPL_CFG % dict(cap=cap, limit=limit, old="FALSE"), label="MemStoreImpl(cap=%d,limit=%d) refines ConcMailstore" % (cap, limit))
         # the named deviation "code before the accounting fix": TLC must find the predicted defects (a prediction, never a verdict)
         rc, out, dt = run.tlc("MCMemStoreImpl", IMPL_CFG % dict(cap=0, limit=4, old="TRUE"), workers=8, timeout=600, heap="8g")
